@@ -258,6 +258,22 @@ def analyse_config_class(repo: Repo, c: Cls) -> ConfigClass:
                 key = n.slice.value
             elif isinstance(n, ast.Compare) and len(n.ops) == 1 and isinstance(n.ops[0], ast.In) and isinstance(n.left, ast.Constant) and isinstance(n.left.value, str):
                 key = n.left.value
+            if key is None and isinstance(n, ast.Call) and isinstance(n.func, ast.Name):
+                # helper(config, "key", "override_key", DEFAULT): constants bound to a parameter the helper uses as a dict key
+                g = repo.funcs.get(f"{c.module.name}.{n.func.id}")
+                if g is not None:
+                    gp = [a.arg for a in g.node.args.args]
+                    keyparams = set()
+                    for x in ast.walk(g.node):
+                        if isinstance(x, ast.Call) and isinstance(x.func, ast.Attribute) and x.func.attr in ("get", "pop") and x.args and isinstance(x.args[0], ast.Name):
+                            keyparams.add(x.args[0].id)
+                        if isinstance(x, ast.Subscript) and isinstance(x.slice, ast.Name):
+                            keyparams.add(x.slice.id)
+                        if isinstance(x, ast.Compare) and isinstance(x.ops[0], (ast.In, ast.NotIn)) and isinstance(x.left, ast.Name):
+                            keyparams.add(x.left.id)
+                    for i, a in enumerate(n.args):
+                        if isinstance(a, ast.Constant) and isinstance(a.value, str) and i < len(gp) and gp[i] in keyparams:
+                            cc.keys.setdefault(a.value, []).append(n)
             if key is not None:
                 cc.keys.setdefault(key, []).append(n)
                 if dflt is not None and key not in cc.key_default:
